@@ -177,6 +177,101 @@ pub fn run(args: &Args) -> Report {
     let decoy = root.join("decoy_cwd");
     let _ = std::fs::create_dir_all(&decoy);
     let _ = std::env::set_current_dir(&decoy);
+    // fixed scenarios ------------------------------------------------------------------------------------------------
+    {
+        use a2lfile::A2lObjectName;
+        let meas = |n: &str| format!("/begin MEASUREMENT {n} \"\" UBYTE NO_COMPU_METHOD 0 0 0 1 /end MEASUREMENT\n");
+        let main_with = |incs: &[&str]| format!("ASAP2_VERSION 1 71\n/begin PROJECT p \"\"\n/begin MODULE m \"\"\n{}/end MODULE\n/end PROJECT\n", incs.iter().map(|f| format!("/include \"{f}\"\n")).collect::<String>());
+        let names = |f: &a2lfile::A2lFile| -> Vec<String> {
+            let mut v: Vec<String> = f.project.module.iter().flat_map(|m| m.measurement.iter().map(|x| x.get_name().to_string())).collect();
+            v.sort();
+            v
+        };
+        // (1) two flat include files whose elements interleave by name; sort() mixes them in the module's list, the writer
+        //     still has to emit each directive once, and the written file reloads to the same set of elements
+        for (k, (a, b)) in [(vec!["m_a", "m_c", "m_e"], vec!["m_b", "m_d", "m_f"]), (vec!["z1", "a1"], vec!["k1"]), (vec!["x"], vec!["w", "y"])].iter().enumerate() {
+            let dir = root.join(format!("sortinc{k}"));
+            write_files(&dir, &[
+                ("main.a2l".to_string(), main_with(&["one.a2l", "two.a2l"])),
+                ("one.a2l".to_string(), a.iter().map(|n| meas(n)).collect()),
+                ("two.a2l".to_string(), b.iter().map(|n| meas(n)).collect()),
+            ]);
+            let input = format!("fixed:sort-with-includes:{k}");
+            std::fs::write(&current, &input).ok();
+            rep.case(&input, true);
+            rep.bump("fixed:sort-with-includes");
+            match catch(|| a2lfile::load(dir.join("main.a2l"), None, false)) {
+                Ok(Ok((mut f, _))) => {
+                    let want = names(&f);
+                    if let Err(p) = catch(std::panic::AssertUnwindSafe(|| f.sort())) {
+                        rep.fail("panic", input.clone(), p);
+                        continue;
+                    }
+                    let out = dir.join("sorted_out.a2l");
+                    if f.write(&out, None).is_err() {
+                        rep.fail("write", input.clone(), "writing the sorted model failed".into());
+                        continue;
+                    }
+                    let wtext = std::fs::read_to_string(&out).unwrap_or_default();
+                    for inc in ["one.a2l", "two.a2l"] {
+                        let cnt = wtext.matches(&format!("/include \"{inc}\"")).count();
+                        if cnt != 1 {
+                            rep.fail("include-directive", input.clone(), format!("after sort() the written file has {cnt} directives for {inc} (one expected)"));
+                        }
+                    }
+                    match catch(|| a2lfile::load(&out, None, false)) {
+                        Ok(Ok((f2, _))) => {
+                            if names(&f2) != want {
+                                rep.fail("reload", input.clone(), format!("after load, sort(), write the reloaded file holds the elements {:?}, the model held {want:?}", names(&f2)));
+                            }
+                        }
+                        Ok(Err(e)) => rep.fail("reload", input.clone(), format!("the file written after sort() does not load: {e}")),
+                        Err(p) => rep.fail("panic", input.clone(), p),
+                    }
+                }
+                Ok(Err(e)) => rep.fail("generator", input.clone(), format!("fixed scenario does not load: {e}")),
+                Err(p) => rep.fail("panic", input.clone(), p),
+            }
+        }
+        // (2) witness of the known finding `include-comment-duplicated`: a comment that stands in an include file
+        //     directly inside a block opened in the including file
+        {
+            let dir = root.join("inccomment");
+            write_files(&dir, &[
+                ("main.a2l".to_string(), main_with(&["inc.a2l"])),
+                ("inc.a2l".to_string(), format!("{}/* comment inside the include file */\n{}", meas("x"), meas("y"))),
+            ]);
+            let input = "fixed:comment-in-include".to_string();
+            std::fs::write(&current, &input).ok();
+            rep.case(&input, true);
+            rep.bump("finding:include-comment-duplicated");
+            if let Ok(Ok((f, _))) = catch(|| a2lfile::load(dir.join("main.a2l"), None, false)) {
+                let out = dir.join("out.a2l");
+                let mut texts = vec![];
+                let mut cur = f;
+                for _ in 0..3 {
+                    if cur.write(&out, None).is_err() {
+                        break;
+                    }
+                    texts.push(std::fs::read_to_string(&out).unwrap_or_default());
+                    match catch(|| a2lfile::load(&out, None, false)) {
+                        Ok(Ok((f2, _))) => cur = f2,
+                        _ => break,
+                    }
+                }
+                if texts.len() == 3 {
+                    let count = |t: &str| t.matches("comment inside the include file").count();
+                    if count(&texts[0]) >= 1 && count(&texts[2]) > count(&texts[0]) {
+                        rep.fail("include-comment-duplicated", input.clone(), format!("the comment of the include file is written into the main file too ({} time(s) after the first write, {} after the third): it accumulates on every load / write cycle", count(&texts[0]), count(&texts[2])));
+                    } else if texts[0] != texts[2] {
+                        rep.fail("fixpoint", input.clone(), "a file with a comment inside an include file drifts over load / write cycles".into());
+                    }
+                } else {
+                    rep.fail("reload", input.clone(), "a file with a comment inside an include file does not survive three load / write cycles".into());
+                }
+            }
+        }
+    }
     for i in 0..n {
         let sp = make_split(&g, &mut rng, 1 + i % 3);
         let dir = root.join(format!("c{i}"));
